@@ -80,6 +80,28 @@ func (e *Env) MetaFull(on bool) error {
 	return nil
 }
 
+// MetaNearlyFull fills the meta file system but leaves about `leave` bytes free (rounded
+// to the file system's 4 KiB blocks), so that an operation that stages several files gets
+// its first one(s) written and then runs out of space.
+func (e *Env) MetaNearlyFull(leave int64) error {
+	if !e.metaMounted {
+		return nil
+	}
+	if err := e.MetaFull(true); err != nil {
+		return err
+	}
+	b := filepath.Join(e.MetaDir(), ".ballast")
+	fi, err := os.Stat(b)
+	if err != nil {
+		return err
+	}
+	n := fi.Size() - leave
+	if n < 0 {
+		n = 0
+	}
+	return os.Truncate(b, n)
+}
+
 // ---------------------------------------------------------------------------
 // the same facility for checks that do not use Env
 
